@@ -142,3 +142,38 @@ mutual
 end
 
 end Rlbox
+
+namespace Rlbox
+
+/-! ## The image at byte level: a whole-struct store is one write per scalar leaf -/
+
+mutual
+  /-- sizes (bytes, guest ABI) of the scalar leaves, in the order of `leafRel` -/
+  def leafSizes (abi : Abi) : CTy → List Nat
+    | .arr n el =>
+        let one := leafSizes abi el
+        (List.range n).flatMap fun _ => one
+    | .struct fs => fieldsSizes abi fs
+    | t => [t.size abi]
+  def fieldsSizes (abi : Abi) : List CTy → List Nat
+    | [] => []
+    | f :: fs => leafSizes abi f ++ fieldsSizes abi fs
+end
+
+/-- the bytes a guest leaf value occupies (integers: two's complement; pointers and function
+designators: the representation), little endian, exactly `size` bytes -/
+def leafBytes (size : Nat) : SVal → List Nat
+  | .int v => encodeLE size ((v % ((256 ^ size : Nat) : Int)).toNat)
+  | .ptr r => encodeLE size r
+  | .fn i => encodeLE size i
+  | _ => encodeLE size 0
+
+/-- the writes of `*p = s` for a struct image `g` at address `base`: (address, bytes) per leaf -/
+def imageWrites (abi : Abi) (t : CTy) (g : SVal) (base : Nat) : List (Nat × List Nat) :=
+  ((leafRel abi t).zip ((leafSizes abi t).zip g.leaves)).map fun (off, sz, v) => (base + off, leafBytes sz v)
+
+def writeMany (m : Mem) : List (Nat × List Nat) → Mem
+  | [] => m
+  | (a, bs) :: rest => writeMany (m.write a bs) rest
+
+end Rlbox
